@@ -390,10 +390,10 @@ impl ChunkDeserializer {
             return Err(ChunkDeserializationError::Io(error));
         }
 
+        // A chunk never carries more than what is left of its message, even when the max chunk
+        // size was raised above the message's length after the message was started
         let remaining_bytes = length - current_payload_length;
-        if length > self.max_chunk_size as usize {
-            length = min(remaining_bytes, self.max_chunk_size as usize);
-        }
+        length = min(remaining_bytes, self.max_chunk_size as usize);
 
         if self.buffer.len() < length {
             return Ok(ParseStageResult::NotEnoughBytes);
